@@ -95,6 +95,7 @@ fn program_classes(p: &Program, st: &RefStats, rep: &mut Report) {
 
 impl SolverProp {
     fn check_program(&self, p: &Program, family: &str, rep: &mut Report) -> CaseResult {
+        if rep.decode_only { return CaseResult::Pass; }
         let id = self.id;
         let reasks = if self.aspect == Aspect::Exhausted { 3 } else { 1 };
         let cmp = match compare_answers(id, p, reasks) {
